@@ -320,7 +320,9 @@ func checkC18(eng *Engine, prop, tier string, seed int, t0 time.Time, evPath str
 		"bounded_standins":   []map[string]any{{"what": "real tag-driven accessors executed for every registered function x command shape (TestStandin_C18)", "bound": "one generated value per payload type", "subtests_run": standN, "unlisted_failures": standBad}},
 	}
 	b, _ := json.MarshalIndent(ev, "", " ")
-	os.WriteFile(evPath, b, 0o644)
+	if os.Getenv("VERIF_FINGERPRINT") == "" {
+		os.WriteFile(evPath, b, 0o644)
+	}
 	fmt.Printf("%s: %d obligations, %d discharged, %d violations, %d known findings, %.1fs\n", prop, nObl, nOK, violations, len(knownHit), time.Since(t0).Seconds())
 	if violations > 0 {
 		return 1
